@@ -94,52 +94,90 @@ def _np_call(node, fname):
             and node.func.attr == fname)
 
 
+# The bodies are run through a small SYMBOLIC EVALUATOR: straight-line code (assignments, tuple unpacking, return /
+# raise NotImplementedError) over values that are either an Expr term (a string), a tuple of values, a stacked pair
+# (np.stack([l, r], axis=-1)) or a function value (np.min, np.max, a module-level helper).  Calls of module-level
+# helpers are evaluated by binding their parameters (any number, any depth up to 6, no recursion), so that moving
+# code into helpers - or inlining helpers - changes nothing in what is extracted.
+
+def _sv_expr(v):
+    if isinstance(v, str):
+        return v
+    raise Unrecognised("not an array expression")
+
+
+def _np_attr(node):
+    """np.<name> used as a value or as a callee"""
+    if isinstance(node, ast.Attribute) and isinstance(node.value, ast.Name) and node.value.id == "np":
+        return node.attr
+    return None
+
+
+def _call_np(fname, args, kwargs):
+    ax = kwargs.get("axis")
+    if fname in ("min", "max") and len(args) == 1 and ax == -1 and isinstance(args[0], tuple) \
+            and args[0][0] == "stack":
+        return f"({'.pmin' if fname == 'min' else '.pmax'} {args[0][1]} {args[0][2]})"
+    if fname == "cumsum" and len(args) == 1 and ax == -1:
+        return f"(.cumsum {_sv_expr(args[0])})"
+    if fname == "stack" and len(args) == 1 and ax == -1 and isinstance(args[0], tuple) and args[0][0] == "tuple" \
+            and len(args[0][1]) == 2:
+        return ("stack", _sv_expr(args[0][1][0]), _sv_expr(args[0][1][1]))
+    raise Unrecognised("np." + fname)
+
+
 def expr_of(node, env, helpers, depth=0):
-    """Translate a Python expression over the parameter into an Expr term."""
+    """symbolic value of a Python expression"""
     if isinstance(node, ast.Name):
         if node.id in env:
             return env[node.id]
+        if node.id in helpers:
+            return ("func", node.id)
         raise Unrecognised(node.id)
+    if _np_attr(node) is not None:
+        return ("npfunc", _np_attr(node))
+    if isinstance(node, (ast.Tuple, ast.List)):
+        return ("tuple", [expr_of(e, env, helpers, depth) for e in node.elts])
+    if isinstance(node, ast.Constant) and isinstance(node.value, (int, float)) and not isinstance(node.value, bool):
+        return ("const", node.value)
+    if isinstance(node, ast.UnaryOp) and isinstance(node.op, ast.USub) and isinstance(node.operand, ast.Constant):
+        return ("const", -node.operand.value)
     if _is_ellipsis_slice(node, "tail"):
-        return f"(.tail {expr_of(node.value, env, helpers, depth)})"
+        return f"(.tail {_sv_expr(expr_of(node.value, env, helpers, depth))})"
     if _is_ellipsis_slice(node, "init"):
-        return f"(.init {expr_of(node.value, env, helpers, depth)})"
+        return f"(.init {_sv_expr(expr_of(node.value, env, helpers, depth))})"
     if isinstance(node, ast.BinOp):
+        l = expr_of(node.left, env, helpers, depth)
+        r = expr_of(node.right, env, helpers, depth)
         if isinstance(node.op, ast.Sub):
-            return f"(.sub {expr_of(node.left, env, helpers, depth)} {expr_of(node.right, env, helpers, depth)})"
+            return f"(.sub {_sv_expr(l)} {_sv_expr(r)})"
         if isinstance(node.op, ast.Add):
-            return f"(.add {expr_of(node.left, env, helpers, depth)} {expr_of(node.right, env, helpers, depth)})"
-        if isinstance(node.op, ast.Div) and isinstance(node.right, ast.Constant) \
-                and isinstance(node.right.value, (int, float)) \
-                and float(node.right.value).is_integer() and node.right.value > 0:
-            return f"(.divNat {expr_of(node.left, env, helpers, depth)} {int(node.right.value)})"
+            return f"(.add {_sv_expr(l)} {_sv_expr(r)})"
+        if isinstance(node.op, ast.Div) and isinstance(r, tuple) and r[0] == "const" \
+                and float(r[1]).is_integer() and r[1] > 0:
+            return f"(.divNat {_sv_expr(l)} {int(r[1])})"
         raise Unrecognised("binop")
-    # np.min(np.stack([l, r], axis=-1), axis=-1)
-    for fname, ctor in (("min", ".pmin"), ("max", ".pmax")):
-        if _np_call(node, fname) and len(node.args) == 1:
-            ax = _kw(node, "axis")
-            inner = node.args[0]
-            if isinstance(inner, ast.Name) and inner.id in env and isinstance(env[inner.id], tuple):
-                l, r = env[inner.id]
-                if ax is not None and _const_m1(ax):
-                    return f"({ctor} {l} {r})"
-            if ax is not None and _const_m1(ax) and _np_call(inner, "stack") \
-                    and len(inner.args) == 1 and isinstance(inner.args[0], ast.List) \
-                    and len(inner.args[0].elts) == 2 and _kw(inner, "axis") is not None \
-                    and _const_m1(_kw(inner, "axis")):
-                l = expr_of(inner.args[0].elts[0], env, helpers, depth)
-                r = expr_of(inner.args[0].elts[1], env, helpers, depth)
-                return f"({ctor} {l} {r})"
-    if _np_call(node, "cumsum") and len(node.args) == 1 and _kw(node, "axis") is not None \
-            and _const_m1(_kw(node, "axis")):
-        return f"(.cumsum {expr_of(node.args[0], env, helpers, depth)})"
-    # one-level helper call  helper(a)
-    if isinstance(node, ast.Call) and isinstance(node.func, ast.Name) \
-            and node.func.id in helpers and depth < 2 and len(node.args) == 1 and not node.keywords:
-        h = helpers[node.func.id]
-        if len(h.args.args) == 1:
-            arg = expr_of(node.args[0], env, helpers, depth)
-            return body_of(h, {h.args.args[0].arg: arg}, helpers, depth + 1)
+    if isinstance(node, ast.Call):
+        args = [expr_of(a, env, helpers, depth) for a in node.args]
+        kwargs = {}
+        for k in node.keywords:
+            if k.arg is None:
+                raise Unrecognised("**kwargs")
+            v = expr_of(k.value, env, helpers, depth)
+            kwargs[k.arg] = v[1] if isinstance(v, tuple) and v[0] == "const" else v
+        f = expr_of(node.func, env, helpers, depth)
+        if isinstance(f, tuple) and f[0] == "npfunc":
+            return _call_np(f[1], args, kwargs)
+        if isinstance(f, tuple) and f[0] == "func" and depth < 6:
+            h = helpers[f[1]]
+            params = [a.arg for a in h.args.args]
+            if h.args.vararg or h.args.kwarg or h.args.kwonlyargs or len(args) + len(kwargs) != len(params) \
+                    or any(k not in params for k in kwargs):
+                raise Unrecognised("helper signature")
+            bound = dict(zip(params, args))
+            bound.update(kwargs)
+            return body_of(h, bound, helpers, depth + 1)
+        raise Unrecognised("call")
     raise Unrecognised(ast.dump(node)[:60])
 
 
@@ -147,24 +185,18 @@ def body_of(fn, env, helpers, depth=0):
     env = dict(env)
     stmts = [s for s in fn.body
              if not (isinstance(s, ast.Expr) and isinstance(s.value, ast.Constant))]
+    if not stmts:
+        raise Unrecognised("empty body")
     for s in stmts[:-1]:
         if isinstance(s, ast.Assign) and len(s.targets) == 1:
             tgt = s.targets[0]
+            val = expr_of(s.value, env, helpers, depth)
             if isinstance(tgt, ast.Name):
-                # stack of two is kept as a pair for np.min/np.max
-                if _np_call(s.value, "stack") and len(s.value.args) == 1 \
-                        and isinstance(s.value.args[0], ast.List) and len(s.value.args[0].elts) == 2 \
-                        and _kw(s.value, "axis") is not None and _const_m1(_kw(s.value, "axis")):
-                    env[tgt.id] = (expr_of(s.value.args[0].elts[0], env, helpers, depth),
-                                   expr_of(s.value.args[0].elts[1], env, helpers, depth))
-                else:
-                    env[tgt.id] = expr_of(s.value, env, helpers, depth)
+                env[tgt.id] = val
                 continue
-            if isinstance(tgt, ast.Tuple) and isinstance(s.value, ast.Tuple) \
-                    and len(tgt.elts) == len(s.value.elts) \
-                    and all(isinstance(t, ast.Name) for t in tgt.elts):
-                vals = [expr_of(v, env, helpers, depth) for v in s.value.elts]
-                for t, v in zip(tgt.elts, vals):
+            if isinstance(tgt, ast.Tuple) and all(isinstance(t, ast.Name) for t in tgt.elts) \
+                    and isinstance(val, tuple) and val[0] == "tuple" and len(val[1]) == len(tgt.elts):
+                for t, v in zip(tgt.elts, val[1]):
                     env[t.id] = v
                 continue
         raise Unrecognised("stmt")
@@ -222,7 +254,9 @@ def gen_gridops():
             if len(node.args.args) != 1:
                 raise Unrecognised("arity")
             body = body_of(node, {node.args.args[0].arg: ".arg"}, helpers)
-        except Unrecognised:
+            if not isinstance(body, str):
+                raise Unrecognised("the body does not return an array expression")
+        except (Unrecognised, RecursionError):
             body = f"(.opaque {lean_str(ast.get_source_segment(text, node) or node.name)})"
         entries.append((node.name, sig, parsed, bw, opts, body))
 
@@ -380,6 +414,197 @@ def _cumsum_cond(test):
     return pairs
 
 
+# --------------------------------------------------------------------------
+# fallback for Grid.cumsum: partial evaluation of the shift decision
+# --------------------------------------------------------------------------
+
+class _Unknown:
+    """a value the partial evaluator knows nothing about"""
+    def __repr__(self):
+        return "<?>"
+
+
+_UNK = _Unknown()
+
+
+class _Trimmed:
+    """data.isel(**{dim: slice(0, -1)})"""
+
+
+class _Stop(Exception):
+    pass
+
+
+class _Refused(Exception):
+    pass
+
+
+class _Break(Exception):
+    pass
+
+
+def _pe_expr(e, env):
+    """value of an expression under `env`, or _UNK"""
+    if isinstance(e, ast.Constant):
+        return e.value
+    if isinstance(e, ast.Name):
+        return env.get(e.id, _UNK)
+    if isinstance(e, ast.UnaryOp) and isinstance(e.op, ast.USub):
+        v = _pe_expr(e.operand, env)
+        return -v if isinstance(v, (int, float)) else _UNK
+    if isinstance(e, ast.UnaryOp) and isinstance(e.op, ast.Not):
+        v = _pe_expr(e.operand, env)
+        return (not v) if isinstance(v, (bool, int, str, tuple)) else _UNK
+    if isinstance(e, (ast.Tuple, ast.List)):
+        vs = [_pe_expr(x, env) for x in e.elts]
+        return tuple(vs)
+    if isinstance(e, ast.Dict) and len(e.values) == 1:
+        return {"__single__": _pe_expr(e.values[0], env)}
+    if isinstance(e, ast.Compare) and len(e.ops) == 1:
+        l, r = _pe_expr(e.left, env), _pe_expr(e.comparators[0], env)
+        if isinstance(l, _Unknown) or isinstance(r, _Unknown):
+            return _UNK
+        if isinstance(e.ops[0], ast.Eq):
+            return l == r
+        if isinstance(e.ops[0], ast.NotEq):
+            return l != r
+        if isinstance(e.ops[0], ast.In) and isinstance(r, tuple):
+            return l in r
+        if isinstance(e.ops[0], ast.NotIn) and isinstance(r, tuple):
+            return l not in r
+        return _UNK
+    if isinstance(e, ast.BoolOp):
+        vs = [_pe_expr(v, env) for v in e.values]
+        if isinstance(e.op, ast.And):
+            if any(v is False for v in vs):
+                return False
+            return _UNK if any(isinstance(v, _Unknown) for v in vs) else all(vs)
+        if any(v is True for v in vs):
+            return True
+        return _UNK if any(isinstance(v, _Unknown) for v in vs) else any(vs)
+    if isinstance(e, ast.IfExp):
+        t = _pe_expr(e.test, env)
+        if isinstance(t, _Unknown):
+            return _UNK
+        return _pe_expr(e.body if t else e.orelse, env)
+    if isinstance(e, ast.Call) and isinstance(e.func, ast.Attribute) and e.func.attr == "isel" \
+            and isinstance(e.func.value, ast.Name) and e.func.value.id == "data":
+        seg = ast.unparse(e).replace(" ", "")
+        if seg == "data.isel(**{dim:slice(0,-1)})":
+            return _Trimmed()
+        return _UNK
+    return _UNK
+
+
+def _pe_block(stmts, env, stop_at):
+    for s in stmts:
+        if stop_at(s):
+            raise _Stop()
+        if isinstance(s, ast.Expr):
+            continue
+        if isinstance(s, ast.Raise):
+            raise _Refused()
+        if isinstance(s, ast.Break):
+            raise _Break()
+        if isinstance(s, ast.If):
+            t = _pe_expr(s.test, env)
+            if isinstance(t, _Unknown):
+                raise Unrecognised("condition not decided by (pos, ax_to)")
+            _pe_block(s.body if t else s.orelse, env, stop_at)
+            continue
+        if isinstance(s, ast.For):
+            it = _pe_expr(s.iter, env)
+            if not isinstance(it, tuple):
+                raise Unrecognised("loop over something that is not a literal table")
+            broke = False
+            for row in it:
+                names = _targets(s.target)
+                if isinstance(s.target, ast.Name):
+                    env[s.target.id] = row
+                elif isinstance(row, tuple) and len(row) == len(names):
+                    env.update(dict(zip(names, row)))
+                else:
+                    raise Unrecognised("loop target")
+                try:
+                    _pe_block(s.body, env, stop_at)
+                except _Break:
+                    broke = True
+                    break
+            if not broke:
+                _pe_block(s.orelse, env, stop_at)
+            continue
+        if isinstance(s, ast.Assign) and len(s.targets) == 1:
+            v = _pe_expr(s.value, env)
+            t = s.targets[0]
+            if isinstance(t, ast.Name):
+                if t.id == "data":
+                    if isinstance(v, _Trimmed):
+                        if env.get("__trim__"):
+                            raise Unrecognised("trimmed twice")
+                        env["__trim__"] = True
+                    else:
+                        raise Unrecognised("data re-bound to something else")
+                else:
+                    env[t.id] = v
+                continue
+            if isinstance(t, (ast.Tuple, ast.List)) and isinstance(v, tuple) and len(v) == len(t.elts):
+                for x, y in zip(_targets(t), v):
+                    env[x] = y
+                continue
+        raise Unrecognised("statement " + type(s).__name__)
+
+
+def _cumsum_by_partial_evaluation(tree, cs):
+    """for each of the 25 (pos, ax_to) pairs, run the statements of Grid.cumsum's per-axis loop from the first one
+    that tests / uses the pair up to the call of pad() with pos and ax_to fixed: refused, or (trim?, (lo, hi))"""
+    consts = {}
+    for node in tree.body:
+        if isinstance(node, ast.Assign) and len(node.targets) == 1 and isinstance(node.targets[0], ast.Name):
+            try:
+                consts[node.targets[0].id] = ast.literal_eval(node.value)
+            except Exception:
+                pass
+
+    def as_tuples(v):
+        return tuple(as_tuples(x) for x in v) if isinstance(v, (list, tuple)) else v
+    consts = {k: as_tuples(v) for k, v in consts.items()}
+    loop = None
+    for node in ast.walk(cs):
+        if isinstance(node, ast.For) and any(
+                isinstance(c, ast.Call) and isinstance(c.func, ast.Name) and c.func.id == "pad" for c in ast.walk(node)):
+            loop = node
+    if loop is None:
+        raise Unrecognised("per-axis loop of cumsum not found")
+
+    def is_pad(s):
+        return any(isinstance(c, ast.Call) and isinstance(c.func, ast.Name) and c.func.id == "pad" for c in ast.walk(s))
+    # start after the statement that resolves the default target position (`if ax_to is None: ...`)
+    body = list(loop.body)
+    start = 0
+    for i, s in enumerate(body):
+        if isinstance(s, ast.If) and "ax_to is None" in ast.unparse(s.test):
+            start = i + 1
+    rows = []
+    for p in POSITIONS:
+        for t in POSITIONS:
+            env = dict(consts)
+            env.update({"pos": p, "ax_to": t})
+            try:
+                _pe_block(body[start:], env, is_pad)
+                raise Unrecognised("pad() never reached")
+            except _Refused:
+                continue
+            except _Stop:
+                pass
+            w = env.get("ax_boundary_width")
+            w = w.get("__single__") if isinstance(w, dict) else None
+            if not (isinstance(w, tuple) and len(w) == 2 and all(isinstance(x, int) and not isinstance(x, bool) and x >= 0 for x in w)):
+                raise Unrecognised("ax_boundary_width")
+            rows.append((p, t, bool(env.get("__trim__")), w))
+    return rows
+
+
+
 def gen_grid_defaults():
     text = src("grid.py")
     tree = ast.parse(text)
@@ -387,21 +612,28 @@ def gen_grid_defaults():
     # for ax, p in periodic_dict.items(): if boundary_dict[ax] is None: if p is True: = "periodic" else: = "fill"
     per_true = per_false = None
     for node in ast.walk(init):
+        # the loop over the (axis, flag) pairs of the `periodic` mapping, whatever its variables are called
         if isinstance(node, ast.For) and isinstance(node.iter, ast.Call) \
-                and isinstance(node.iter.func, ast.Attribute) \
+                and isinstance(node.iter.func, ast.Attribute) and node.iter.func.attr == "items" \
                 and isinstance(node.iter.func.value, ast.Name) \
-                and node.iter.func.value.id == "periodic_dict":
+                and "periodic" in node.iter.func.value.id:
+            names = _targets(node.target)
+            flag = names[-1] if names else None
+
+            def is_flag_true(test):
+                return isinstance(test, ast.Compare) and isinstance(test.left, ast.Name) and test.left.id == flag \
+                    and len(test.ops) == 1 and isinstance(test.ops[0], ast.Is) \
+                    and isinstance(test.comparators[0], ast.Constant) and test.comparators[0].value is True
             for sub in ast.walk(node):
-                if isinstance(sub, ast.If) and isinstance(sub.test, ast.Compare) \
-                        and isinstance(sub.test.left, ast.Name) and sub.test.left.id == "p" \
-                        and isinstance(sub.test.ops[0], ast.Is) \
-                        and isinstance(sub.test.comparators[0], ast.Constant) \
-                        and sub.test.comparators[0].value is True:
-                    try:
-                        per_true = literal(sub.body[0].value)
+                try:
+                    if isinstance(sub, ast.If) and is_flag_true(sub.test) and len(sub.body) == 1 and len(sub.orelse) == 1:
+                        per_true = literal(sub.body[0].value)          # if flag is True: ... = "periodic" else: ... = "fill"
                         per_false = literal(sub.orelse[0].value)
-                    except Exception:
-                        pass
+                    elif isinstance(sub, ast.IfExp) and is_flag_true(sub.test):
+                        per_true = literal(sub.body)                   # "periodic" if flag is True else "fill"
+                        per_false = literal(sub.orelse)
+                except Exception:
+                    pass
     # cumsum table
     cs = find_func(tree, "cumsum", "Grid")
     rows = []
@@ -450,6 +682,17 @@ def gen_grid_defaults():
                 recognised = False
             chain = None
 
+    if not (recognised and rows):
+        # the if/elif chain was not found in its known form: decide every (pos, ax_to) pair by partial evaluation
+        try:
+            rows2 = _cumsum_by_partial_evaluation(tree, cs)
+            # keep the order of the known form where the content is the same (the table is a finite map)
+            order = {("center", "right"): 0, ("left", "center"): 1, ("center", "left"): 2, ("right", "center"): 3,
+                     ("center", "inner"): 4, ("outer", "center"): 5, ("center", "outer"): 6, ("inner", "center"): 7}
+            rows = sorted(rows2, key=lambda r: order.get((r[0], r[1]), 99))
+            recognised = bool(rows)
+        except (Unrecognised, RecursionError, KeyError, TypeError, AttributeError):
+            pass
     lines = ["import XgcmModel.Model.Basic",
              "/- GENERATED by tools/extract.py from xgcm/grid.py — do not edit -/",
              "namespace Xgcm.Gen", "open Xgcm", ""]
@@ -516,11 +759,23 @@ def gen_regex():
     # how the string parser tests the pattern: re.match / re.fullmatch
     matcher = None
     fn = find_func(tree, "_parse_signature_from_string")
+    # names bound at module level to re.compile(_SIGNATURE) (a pre-compiled pattern is the same test)
+    compiled = set()
+    for node in tree.body:
+        if isinstance(node, ast.Assign) and len(node.targets) == 1 and isinstance(node.targets[0], ast.Name) \
+                and isinstance(node.value, ast.Call) and isinstance(node.value.func, ast.Attribute) \
+                and node.value.func.attr == "compile" and isinstance(node.value.func.value, ast.Name) \
+                and node.value.func.value.id == "re" and len(node.value.args) == 1 and not node.value.keywords \
+                and isinstance(node.value.args[0], ast.Name) and node.value.args[0].id == "_SIGNATURE":
+            compiled.add(node.targets[0].id)
     for node in ast.walk(fn):
         if isinstance(node, ast.Call) and isinstance(node.func, ast.Attribute) \
-                and isinstance(node.func.value, ast.Name) and node.func.value.id == "re" \
-                and node.args and isinstance(node.args[0], ast.Name) and node.args[0].id == "_SIGNATURE":
-            matcher = node.func.attr
+                and isinstance(node.func.value, ast.Name):
+            if node.func.value.id == "re" and node.args and isinstance(node.args[0], ast.Name) \
+                    and node.args[0].id == "_SIGNATURE":
+                matcher = node.func.attr
+            elif node.func.value.id in compiled and node.func.attr in ("match", "fullmatch", "search"):
+                matcher = node.func.attr
     # options stored by GridUFunc.__init__ (self.X = kwargs.pop("X", default)) and those
     # read back in __call__ (kwargs.pop("X", self.X)) and forwarded to apply_as_grid_ufunc
     stored, popped_call, forwarded = [], [], []
@@ -542,6 +797,58 @@ def gen_regex():
                 if k.arg is not None:
                     src_txt = ast.get_source_segment(text, k.value) or ""
                     forwarded.append((k.arg, src_txt))
+    # the same facts written table-driven: ONE module-level dict literal of option defaults,
+    #   for name, default in TABLE.items(): setattr(self, name, kwargs.pop(name, default))          (__init__)
+    #   opts = {name: kwargs.pop(name, getattr(self, name)) for name in TABLE}; apply_as_grid_ufunc(..., **opts)   (__call__)
+    tables = {}
+    for node in tree.body:
+        tgt = node.targets[0] if isinstance(node, ast.Assign) and len(node.targets) == 1 else (
+            node.target if isinstance(node, ast.AnnAssign) else None)
+        val = getattr(node, "value", None)
+        if isinstance(tgt, ast.Name) and isinstance(val, ast.Dict) and val.keys and all(
+                isinstance(k, ast.Constant) and isinstance(k.value, str) for k in val.keys):
+            tables[tgt.id] = [k.value for k in val.keys]
+
+    def table_of(it):
+        if isinstance(it, ast.Name) and it.id in tables:
+            return tables[it.id]
+        if isinstance(it, ast.Call) and isinstance(it.func, ast.Attribute) and it.func.attr in ("items", "keys") \
+                and isinstance(it.func.value, ast.Name) and it.func.value.id in tables and not it.args:
+            return tables[it.func.value.id]
+        return None
+    for node in ast.walk(init):
+        if isinstance(node, ast.For) and table_of(node.iter) is not None and len(node.body) == 1:
+            names = _targets(node.target)
+            b = node.body[0]
+            c = b.value if isinstance(b, ast.Expr) else None
+            if names and isinstance(c, ast.Call) and isinstance(c.func, ast.Name) and c.func.id == "setattr" \
+                    and len(c.args) == 3 and isinstance(c.args[0], ast.Name) and c.args[0].id == "self" \
+                    and isinstance(c.args[1], ast.Name) and c.args[1].id == names[0] \
+                    and isinstance(c.args[2], ast.Call) and isinstance(c.args[2].func, ast.Attribute) \
+                    and c.args[2].func.attr == "pop" and isinstance(c.args[2].func.value, ast.Name) \
+                    and c.args[2].func.value.id == "kwargs" and c.args[2].args \
+                    and isinstance(c.args[2].args[0], ast.Name) and c.args[2].args[0].id == names[0]:
+                stored += [k for k in table_of(node.iter) if k not in stored]
+    popped_into = {}
+    for node in ast.walk(call):
+        if isinstance(node, ast.Assign) and len(node.targets) == 1 and isinstance(node.targets[0], ast.Name) \
+                and isinstance(node.value, ast.DictComp) and len(node.value.generators) == 1:
+            g = node.value.generators[0]
+            keys = table_of(g.iter)
+            v = node.value.value
+            if keys is not None and isinstance(g.target, ast.Name) and not g.ifs \
+                    and isinstance(node.value.key, ast.Name) and node.value.key.id == g.target.id \
+                    and isinstance(v, ast.Call) and isinstance(v.func, ast.Attribute) and v.func.attr == "pop" \
+                    and isinstance(v.func.value, ast.Name) and v.func.value.id == "kwargs" and len(v.args) == 2 \
+                    and isinstance(v.args[0], ast.Name) and v.args[0].id == g.target.id \
+                    and ast.unparse(v.args[1]).replace(" ", "") == f"getattr(self,{g.target.id})":
+                popped_into[node.targets[0].id] = keys
+                popped_call += [k for k in keys if k not in popped_call]
+    for node in ast.walk(call):
+        if isinstance(node, ast.Call) and isinstance(node.func, ast.Name) and node.func.id == "apply_as_grid_ufunc":
+            for k in node.keywords:
+                if k.arg is None and isinstance(k.value, ast.Name) and k.value.id in popped_into:
+                    forwarded += [(o, o) for o in popped_into[k.value.id] if (o, o) not in forwarded]
     allowed = None
     agu = find_func(tree, "as_grid_ufunc")
     for node in ast.walk(agu):
@@ -890,6 +1197,7 @@ def _set_iterations():
     comprehension, a union/intersection/difference of such, or a local name bound to one in the same function
     (flow-insensitive).  sorted(), len(), membership tests, comparisons and all()/any() are order-free."""
     out = []
+    own_functions = {q.split(".")[-1] for (_, q) in _collect_functions()}
     for m in SITE_MODULES:
         try:
             tree = ast.parse(src(m))
@@ -952,6 +1260,10 @@ def _set_iterations():
                         hits += [a for a in n.args if is_set(a)]
                     elif isinstance(f, ast.Attribute) and f.attr == "pop" and is_set(f.value) and not n.args:
                         hits.append(f.value)
+                    # a set handed to one of xgcm's own functions (which may iterate it)
+                    cname = f.id if isinstance(f, ast.Name) else (f.attr if isinstance(f, ast.Attribute) else None)
+                    if cname in own_functions:
+                        hits += [a for a in list(n.args) + [k.value for k in n.keywords] if is_set(a)]
                 for h in hits:
                     out.append((m, h.lineno, ast.unparse(n if isinstance(n, ast.Call) else h)[:80]))
     return sorted(set(out))
